@@ -3,6 +3,7 @@
   mutation it was registered for, undo lists compose, every failing path runs the whole list.
 -/
 import PonyVerif.Model.Undo
+set_option linter.unusedSimpArgs false
 namespace PonyVerif.Model.Undo
 
 /-! ### small function-update algebra -/
@@ -68,19 +69,20 @@ structure Good (s0 : Store) (st : St) : Prop where
   restores : Restores s0 st
 
 /-- the relation between the state before and after a piece of a call -/
-def Step (s0 : Store) (st st' : St) : Prop := Good s0 st → Good s0 st'
+structure Step (s0 : Store) (st st' : St) : Prop where
+  good : Good s0 st → Good s0 st'
+  mono : st.store.n ≤ st'.store.n
 
-theorem Step.refl (s0 : Store) (st : St) : Step s0 st st := id
+theorem Step.refl (s0 : Store) (st : St) : Step s0 st st := ⟨id, Nat.le_refl _⟩
 theorem Step.trans {s0 : Store} {st st1 st2 : St} (h1 : Step s0 st st1) (h2 : Step s0 st1 st2) : Step s0 st st2 :=
-  fun h => h2 (h1 h)
+  ⟨fun h => h2.good (h1.good h), Nat.le_trans h1.mono h2.mono⟩
 
 /-- a logged step: moving to store `s1` and pushing `e` -/
 theorem Step.push {s0 : Store} {st : St} {s1 : Store} {e : Undo}
     (hsave : Good s0 st → SaveOk s1) (hn : st.store.n ≤ s1.n)
     (h : Good s0 st → ∀ t, Eqv s0.n s1 t → Eqv s0.n st.store (undo1 t e)) :
     Step s0 st ((st.setStore s1).log e) := by
-  intro g
-  refine ⟨hsave g, Nat.le_trans g.mono hn, ?_⟩
+  refine ⟨fun g => ⟨hsave g, Nat.le_trans g.mono hn, ?_⟩, hn⟩
   intro t ht
   exact g.restores _ (h g t ht)
 
@@ -89,8 +91,7 @@ theorem Step.unlogged {s0 : Store} {st : St} {s1 : Store}
     (hsave : Good s0 st → SaveOk s1) (hn : st.store.n ≤ s1.n)
     (h : Good s0 st → ∀ t, Eqv s0.n s1 t → Eqv s0.n st.store t) :
     Step s0 st (st.setStore s1) := by
-  intro g
-  refine ⟨hsave g, Nat.le_trans g.mono hn, ?_⟩
+  refine ⟨fun g => ⟨hsave g, Nat.le_trans g.mono hn, ?_⟩, hn⟩
   intro t ht
   exact g.restores _ (h g t ht)
 
@@ -253,8 +254,6 @@ theorem markUndo_eqv {k : Nat} {s s2 : Store} {o : ObjId} {pop : Bool} {moves : 
 structure MarkSpec (s : Store) (o : ObjId) (s1 : Store) (pop : Bool) : Prop where
   n : s1.n = s.n
   pkIdx : s1.pkIdx = s.pkIdx
-  idx : s1.idx = s.idx
-  cidx : s1.cidx = s.cidx
   modColl : s1.modColl = s.modColl
   other : ∀ p, p ≠ o → s1.row p = s.row p
   same : SameBut (s.row o) (s1.row o)
@@ -263,36 +262,47 @@ structure MarkSpec (s : Store) (o : ObjId) (s1 : Store) (pop : Bool) : Prop wher
       else s1.toSave = s.toSave ∧ (s1.row o).savePos = (s.row o).savePos ∧ (s1.row o).status = (s.row o).status
 
 theorem mark_spec (o : ObjId) (bits : List AttrId) (force : Bool) (s : Store) :
-    MarkSpec s o (mark o bits force s).1 (mark o bits force s).2 ∧ ((mark o bits force s).1.row o).val = (s.row o).val := by
+    MarkSpec s o (mark o bits force s).1 (mark o bits force s).2 ∧ ((mark o bits force s).1.row o).val = (s.row o).val ∧
+    (mark o bits force s).1.idx = s.idx ∧ (mark o bits force s).1.cidx = s.cidx := by
   unfold mark
   dsimp only
-  have hrefl : MarkSpec s o s false := ⟨rfl, rfl, rfl, rfl, rfl, fun _ _ => rfl, ⟨rfl, rfl, rfl, rfl, rfl, rfl⟩, ⟨rfl, rfl, rfl⟩⟩
+  have hrefl : MarkSpec s o s false := ⟨rfl, rfl, rfl, fun _ _ => rfl, ⟨rfl, rfl, rfl, rfl, rfl, rfl⟩, ⟨rfl, rfl, rfl⟩⟩
   split
-  · exact ⟨hrefl, rfl⟩
+  · exact ⟨hrefl, rfl, rfl, rfl⟩
   · split
-    · exact ⟨hrefl, rfl⟩
+    · exact ⟨hrefl, rfl, rfl, rfl⟩
     · split
       · rename_i hs
-        refine ⟨⟨rfl, rfl, rfl, rfl, rfl, ?_, ?_, ?_⟩, ?_⟩
+        refine ⟨⟨rfl, rfl, rfl, ?_, ?_, ?_⟩, ?_, rfl, rfl⟩
         · intro p hp; simp [Store.upd, hp]
         · simp [SameBut, Store.upd]
         · simp only [if_true]
           refine ⟨rfl, by simpa using hs, ?_, ?_⟩ <;> simp [Store.upd]
         · simp [Store.upd]
-      · refine ⟨⟨rfl, rfl, rfl, rfl, rfl, ?_, ?_, ?_⟩, ?_⟩
+      · refine ⟨⟨rfl, rfl, rfl, ?_, ?_, ?_⟩, ?_, rfl, rfl⟩
         · intro p hp; simp [Store.upd, hp]
         · simp [SameBut, Store.upd]
         · simp [Store.upd]
         · simp [Store.upd]
 
 /-- a value write to the marked row keeps the specification -/
-theorem MarkSpec.setVal {s s1 : Store} {o : ObjId} {pop : Bool} (h : MarkSpec s o s1 pop) (v : AttrId → Option Nat) :
-    MarkSpec s o (s1.upd o fun r => { r with val := v }) pop := by
-  obtain ⟨a1, a2, a3, a4, a5, a6, a7, a8⟩ := h
-  refine ⟨a1, a2, a3, a4, a5, ?_, ?_, ?_⟩
+theorem MarkSpec.setVal {s s1 : Store} {o : ObjId} {pop : Bool} (h : MarkSpec s o s1 pop) (v : Row → AttrId → Option Nat) :
+    MarkSpec s o (s1.upd o fun r => { r with val := v r }) pop := by
+  obtain ⟨a1, a2, a5, a6, a7, a8⟩ := h
+  refine ⟨a1, a2, a5, ?_, ?_, ?_⟩
   · intro p hp; rw [upd_row_other _ _ _ _ hp]; exact a6 p hp
   · rw [upd_row_same]; exact a7
   · rw [upd_row_same]; exact a8
+
+/-- index moves keep the specification (they touch the two key indexes only) -/
+theorem MarkSpec.frame {s s1 s2 : Store} {o : ObjId} {pop : Bool} (h : MarkSpec s o s1 pop)
+    (e1 : s2.n = s1.n) (e2 : s2.row = s1.row) (e3 : s2.toSave = s1.toSave) (e4 : s2.pkIdx = s1.pkIdx) (e5 : s2.modColl = s1.modColl) :
+    MarkSpec s o s2 pop := by
+  obtain ⟨a1, a2, a5, a6, a7, a8⟩ := h
+  refine ⟨e1.trans a1, e4.trans a2, e5.trans a5, ?_, ?_, ?_⟩
+  · intro p hp; rw [e2]; exact a6 p hp
+  · rw [e2]; exact a7
+  · rw [e2, e3]; exact a8
 
 theorem MarkSpec.saveOk {s s1 : Store} {o : ObjId} {pop : Bool} (h : MarkSpec s o s1 pop) (hs : SaveOk s) : SaveOk s1 := by
   intro p
@@ -340,6 +350,602 @@ theorem step_markEntry {s0 : Store} {st : St} {s2 : Store} {o : ObjId} {pop : Bo
     · simp only [Bool.false_eq_true, if_false] at hq ⊢; exact ⟨hq.1, hq.2.1⟩
     · simp only [if_true] at hq ⊢; exact ⟨hq.1, (g.save o).2 hq.2.1⟩
 
+/-! ### key entries popped by `_delete_` and restored by its closure -/
+
+/-- restoring keys: pointwise -/
+theorem restoreKeys_spec (o : ObjId) (ks : List IdxKey) : ∀ (T : Store),
+    let R := ks.foldl (restoreKey o) T
+    R.n = T.n ∧ R.row = T.row ∧ R.toSave = T.toSave ∧ R.modColl = T.modColl ∧
+    (∀ a v, R.idx a v = if ks.contains (.simple a v) then some o else T.idx a v) ∧
+    (∀ k vs, R.cidx k vs = if ks.contains (.comp k vs) then some o else T.cidx k vs) ∧
+    (∀ e p, R.pkIdx e p = if ks.contains (.pk e p) then some o else T.pkIdx e p) := by
+  induction ks with
+  | nil => intro T; simp
+  | cons k ks ih =>
+    intro T
+    simp only [List.foldl_cons]
+    obtain ⟨h1, h2, h3, h4, h5, h6, h7⟩ := ih (restoreKey o T k)
+    cases k with
+    | pk e p =>
+      refine ⟨h1, h2, h3, h4, ?_, ?_, ?_⟩
+      · intro a v; rw [h5]; simp [restoreKey]
+      · intro k vs; rw [h6]; simp [restoreKey]
+      · intro e' p'; rw [h7]
+        simp only [restoreKey, set2, List.contains_cons, Bool.or_eq_true, beq_iff_eq, IdxKey.pk.injEq]
+        by_cases hc : ks.contains (IdxKey.pk e' p') = true <;> by_cases he : (e' = e ∧ p' = p) <;> simp [hc, he]
+    | simple a v =>
+      refine ⟨h1, h2, h3, h4, ?_, ?_, ?_⟩
+      · intro a' v'; rw [h5]
+        simp only [restoreKey, set2, List.contains_cons, Bool.or_eq_true, beq_iff_eq, IdxKey.simple.injEq]
+        by_cases hc : ks.contains (IdxKey.simple a' v') = true <;> by_cases he : (a' = a ∧ v' = v) <;> simp [hc, he]
+      · intro k vs; rw [h6]; simp [restoreKey]
+      · intro e p; rw [h7]; simp [restoreKey]
+    | comp k vs =>
+      refine ⟨h1, h2, h3, h4, ?_, ?_, ?_⟩
+      · intro a v; rw [h5]; simp [restoreKey]
+      · intro k' vs'; rw [h6]
+        simp only [restoreKey, setK, List.contains_cons, Bool.or_eq_true, beq_iff_eq, IdxKey.comp.injEq]
+        by_cases hc : ks.contains (IdxKey.comp k' vs') = true <;> by_cases he : (k' = k ∧ vs' = vs) <;> simp [hc, he]
+      · intro e p; rw [h7]; simp [restoreKey]
+
+/-- what the popped keys `ks` did to the store -/
+structure Popped (o : ObjId) (s s1 : Store) (ks : List IdxKey) : Prop where
+  n : s1.n = s.n
+  row : s1.row = s.row
+  toSave : s1.toSave = s.toSave
+  modColl : s1.modColl = s.modColl
+  pkIdx : s1.pkIdx = s.pkIdx
+  idx : ∀ a v, s1.idx a v = if ks.contains (.simple a v) then none else s.idx a v
+  cidx : ∀ k vs, s1.cidx k vs = if ks.contains (.comp k vs) then none else s.cidx k vs
+  idxWas : ∀ a v, ks.contains (.simple a v) = true → s.idx a v = some o
+  cidxWas : ∀ k vs, ks.contains (.comp k vs) = true → s.cidx k vs = some o
+  noPk : ∀ e p, ks.contains (.pk e p) = false
+
+theorem Popped.nil (o : ObjId) (s : Store) : Popped o s s [] :=
+  ⟨rfl, rfl, rfl, rfl, rfl, fun _ _ => by simp, fun _ _ => by simp, fun _ _ h => by simp at h, fun _ _ h => by simp at h, fun _ _ => by simp⟩
+
+theorem popC_spec (sch : Schema) (o : ObjId) (val : AttrId → Option Nat) (s0' : Store) : ∀ (ks : List KeyId) (s : Store) (acc : List IdxKey),
+    Popped o s0' s acc → Popped o s0' (popC sch o val ks s acc).1 (popC sch o val ks s acc).2.1 := by
+  intro ks
+  induction ks with
+  | nil => intro s acc h; exact h
+  | cons k ks ih =>
+    intro s acc h
+    simp only [popC]
+    split
+    · exact ih s acc h
+    · rename_i vs _
+      split
+      · rename_i hhit
+        apply ih
+        have hnot : acc.contains (IdxKey.comp k vs) = false := by
+          cases hc : acc.contains (IdxKey.comp k vs)
+          · rfl
+          · have := h.cidx k vs; rw [hc] at this; simp only [if_true] at this; rw [this] at hhit; cases hhit
+        have hwas : s0'.cidx k vs = some o := by
+          have := h.cidx k vs; rw [hnot] at this; simp only [Bool.false_eq_true, if_false] at this; rw [← this]; exact hhit
+        refine ⟨h.n, h.row, h.toSave, h.modColl, h.pkIdx, ?_, ?_, ?_, ?_, ?_⟩
+        · intro a v; simp only [List.contains_append, List.contains_cons, List.contains_nil, Bool.or_false]
+          have := h.idx a v; simp at this ⊢; exact this
+        · intro k' vs'
+          simp only [setK, List.contains_append, List.contains_cons, List.contains_nil, Bool.or_false]
+          by_cases hk : k' = k ∧ vs' = vs
+          · simp [hk.1, hk.2]
+          · have := h.cidx k' vs'
+            have hne : (IdxKey.comp k' vs' == IdxKey.comp k vs) = false := by
+              simp only [beq_eq_false_iff_ne, ne_eq, IdxKey.comp.injEq]; exact hk
+            simp only [hk, if_false, hne, Bool.or_false]; exact this
+        · intro a v hc; apply h.idxWas; simpa using hc
+        · intro k' vs' hc
+          simp only [List.contains_append, List.contains_cons, List.contains_nil, Bool.or_false, Bool.or_eq_true] at hc
+          rcases hc with hc | hc
+          · exact h.cidxWas k' vs' hc
+          · simp only [beq_iff_eq, IdxKey.comp.injEq] at hc; rw [hc.1, hc.2]; exact hwas
+        · intro e p; simp only [List.contains_append, List.contains_cons, List.contains_nil, Bool.or_false, Bool.or_eq_false_iff]
+          exact ⟨h.noPk e p, by simp⟩
+      · exact h
+
+theorem popS_spec (sch : Schema) (o : ObjId) (comps : List KeyId) (val : AttrId → Option Nat) (s0' : Store) : ∀ (as : List AttrId) (s : Store) (acc : List IdxKey),
+    Popped o s0' s acc → Popped o s0' (popS sch o comps val as s acc).1 (popS sch o comps val as s acc).2.1 := by
+  intro as
+  induction as with
+  | nil => intro s acc h; exact popC_spec sch o val s0' comps s acc h
+  | cons a as ih =>
+    intro s acc h
+    simp only [popS]
+    split
+    · exact ih s acc h
+    · rename_i v _
+      split
+      · rename_i hhit
+        apply ih
+        have hnot : acc.contains (IdxKey.simple a v) = false := by
+          cases hc : acc.contains (IdxKey.simple a v)
+          · rfl
+          · have := h.idx a v; rw [hc] at this; simp only [if_true] at this; rw [this] at hhit; cases hhit
+        have hwas : s0'.idx a v = some o := by
+          have := h.idx a v; rw [hnot] at this; simp only [Bool.false_eq_true, if_false] at this; rw [← this]; exact hhit
+        refine ⟨h.n, h.row, h.toSave, h.modColl, h.pkIdx, ?_, ?_, ?_, ?_, ?_⟩
+        · intro a' v'
+          simp only [set2, List.contains_append, List.contains_cons, List.contains_nil, Bool.or_false]
+          by_cases hk : a' = a ∧ v' = v
+          · simp [hk.1, hk.2]
+          · have := h.idx a' v'
+            have hne : (IdxKey.simple a' v' == IdxKey.simple a v) = false := by
+              simp only [beq_eq_false_iff_ne, ne_eq, IdxKey.simple.injEq]; exact hk
+            simp only [hk, if_false, hne, Bool.or_false]; exact this
+        · intro k vs; simp only [List.contains_append, List.contains_cons, List.contains_nil, Bool.or_false]
+          have := h.cidx k vs; simp at this ⊢; exact this
+        · intro a' v' hc
+          simp only [List.contains_append, List.contains_cons, List.contains_nil, Bool.or_false, Bool.or_eq_true] at hc
+          rcases hc with hc | hc
+          · exact h.idxWas a' v' hc
+          · simp only [beq_iff_eq, IdxKey.simple.injEq] at hc; rw [hc.1, hc.2]; exact hwas
+        · intro k vs hc; apply h.cidxWas; simpa using hc
+        · intro e p; simp only [List.contains_append, List.contains_cons, List.contains_nil, Bool.or_false, Bool.or_eq_false_iff]
+          exact ⟨h.noPk e p, by simp⟩
+      · exact h
+
+theorem popKeys_spec (sch : Schema) (o : ObjId) (s : Store) : Popped o s (popKeys sch o s).1 (popKeys sch o s).2.1 := by
+  unfold popKeys
+  exact popS_spec sch o _ _ s _ s [] (Popped.nil o s)
+
+/-- the undo closure of `_delete_` against the store `S` the end of the call produced from `s` -/
+theorem delUndo_eqv {k : Nat} {s S : Store} {o : ObjId} {ks : List IdxKey}
+    (ho : o < s.n) (hn : S.n = s.n) (hmc : S.modColl = s.modColl)
+    (hother : ∀ p, p ≠ o → S.row p = s.row p)
+    (hrow : S.row o = { (s.row o) with status := (S.row o).status, savePos := (S.row o).savePos })
+    (hidx : ∀ T : Store, T.idx = S.idx → T.cidx = S.cidx → T.pkIdx = S.pkIdx →
+      (ks.foldl (restoreKey o) T).idx = s.idx ∧ (ks.foldl (restoreKey o) T).cidx = s.cidx ∧ (ks.foldl (restoreKey o) T).pkIdx = s.pkIdx)
+    (hq : ((S.row o).status = .marked ∧ ∃ l, S.toSave = l ++ [some o] ∧
+            (match (s.row o).savePos with | some p => l.set p (some o) | none => l) = s.toSave)
+        ∨ ((S.row o).status = .cancelled ∧ ∃ p, (s.row o).savePos = some p ∧ (S.toSave).set p (some o) = s.toSave)
+        ∨ ((S.row o).status = (s.row o).status ∧ (s.row o).status ≠ .marked ∧ (s.row o).status ≠ .cancelled ∧
+            S.toSave = s.toSave ∧ (S.row o).savePos = (s.row o).savePos))
+    (t : Store) (ht : Eqv k S t) : Eqv k s (undo1 t (.del o (s.row o).status (s.row o).savePos ks)) := by
+  have hst : (t.row o).status = (S.row o).status := (ht.status o (hn ▸ ho)).symm
+  -- the store the key restore starts from
+  have key : ∀ (T : Store), T.n = t.n → T.modColl = t.modColl → T.idx = t.idx → T.cidx = t.cidx → T.pkIdx = t.pkIdx →
+      T.toSave = s.toSave → (∀ p, p ≠ o → T.row p = t.row p) → (T.row o).status = (s.row o).status →
+      (o < k → T.row o = { (t.row o) with status := (s.row o).status, savePos := (s.row o).savePos }) →
+      Eqv k s (ks.foldl (restoreKey o) T) := by
+    intro T e1 e2 e3 e4 e5 e6 e7 e8a e8
+    obtain ⟨r1, r2, r3, r4, _, _, _⟩ := restoreKeys_spec o ks T
+    obtain ⟨i1, i2, i3⟩ := hidx T (e3.trans ht.idx.symm) (e4.trans ht.cidx.symm) (e5.trans ht.pkIdx.symm)
+    refine ⟨?_, ?_, i3.symm, i1.symm, i2.symm, ?_, ?_, ?_⟩
+    · rw [r1, e1, ← ht.n, hn]
+    · rw [r3, e6]
+    · rw [r4, e2, ← ht.modColl, hmc]
+    · intro p hp
+      rw [r2]
+      by_cases hpo : p = o
+      · rw [hpo, e8a]
+      · rw [e7 p hpo, ← ht.status p (hn ▸ hp), hother p hpo]
+    · intro p hp
+      rw [r2]
+      by_cases hpo : p = o
+      · rw [hpo] at hp ⊢
+        rw [e8 hp, ← ht.row o hp, hrow]
+      · rw [e7 p hpo, ← ht.row p hp, hother p hpo]
+  simp only [undo1]
+  rw [hst]
+  rcases hq with ⟨hm, l, hl, hls⟩ | ⟨hc, p, hp, hps⟩ | ⟨hsame, hnm, hnc, hqq, hsp⟩
+  · rw [hm]; simp only [if_true]
+    apply key
+    · cases (s.row o).savePos <;> rfl
+    · cases (s.row o).savePos <;> rfl
+    · cases (s.row o).savePos <;> rfl
+    · cases (s.row o).savePos <;> rfl
+    · cases (s.row o).savePos <;> rfl
+    · rw [← hls, ← ht.toSave, hl]
+      cases (s.row o).savePos <;> simp [Store.upd, List.dropLast_concat]
+    · intro q hq; cases (s.row o).savePos <;> simp [Store.upd, hq]
+    · cases (s.row o).savePos <;> simp [Store.upd]
+    · intro _; cases (s.row o).savePos <;> simp [Store.upd]
+  · rw [hc]; simp only [reduceCtorEq, if_false, if_true]
+    apply key
+    · rw [hp]; rfl
+    · rw [hp]; rfl
+    · rw [hp]; rfl
+    · rw [hp]; rfl
+    · rw [hp]; rfl
+    · rw [hp, ← hps, ← ht.toSave]; simp [Store.upd]
+    · intro q hq; rw [hp]; simp [Store.upd, hq]
+    · rw [hp]; simp [Store.upd]
+    · intro _; rw [hp]; simp [Store.upd]
+  · rw [hsame]
+    simp only [hnm, hnc, if_false]
+    apply key
+    · rfl
+    · rfl
+    · rfl
+    · rfl
+    · rfl
+    · show t.toSave = _; rw [← ht.toSave, hqq]
+    · intro q hq; simp [Store.upd, hq]
+    · simp [Store.upd]
+    · intro hk
+      have := ht.row o hk
+      simp only [Store.upd, if_true]
+      rw [← this, hrow, hsp]
+
+/-- restoring the popped keys gives the indexes back -/
+theorem popped_restore {o : ObjId} {s s1 : Store} {ks : List IdxKey} (h : Popped o s s1 ks) (T : Store)
+    (e1 : T.idx = s1.idx) (e2 : T.cidx = s1.cidx) :
+    (ks.foldl (restoreKey o) T).idx = s.idx ∧ (ks.foldl (restoreKey o) T).cidx = s.cidx ∧ (ks.foldl (restoreKey o) T).pkIdx = T.pkIdx := by
+  obtain ⟨_, _, _, _, r5, r6, r7⟩ := restoreKeys_spec o ks T
+  refine ⟨?_, ?_, ?_⟩
+  · funext a v
+    rw [r5, e1, h.idx]
+    by_cases hc : ks.contains (IdxKey.simple a v) = true
+    · simp only [hc, if_true]; exact (h.idxWas a v hc).symm
+    · simp only [hc, if_false]; simp
+  · funext k vs
+    rw [r6, e2, h.cidx]
+    by_cases hc : ks.contains (IdxKey.comp k vs) = true
+    · simp only [hc, if_true]; exact (h.cidxWas k vs hc).symm
+    · simp only [hc, if_false]; simp
+  · funext e p
+    rw [r7, h.noPk]; simp
+
+/-- the same with the primary-key entry popped last -/
+theorem popped_restore_pk {o : ObjId} {s s1 : Store} {ks : List IdxKey} (h : Popped o s s1 ks) (e : EntId) (p : Nat) (hpk : s.pkIdx e p = some o) (T : Store)
+    (e1 : T.idx = s1.idx) (e2 : T.cidx = s1.cidx) (e3 : T.pkIdx = set2 s.pkIdx e p none) :
+    ((ks ++ [IdxKey.pk e p]).foldl (restoreKey o) T).idx = s.idx ∧ ((ks ++ [IdxKey.pk e p]).foldl (restoreKey o) T).cidx = s.cidx ∧
+    ((ks ++ [IdxKey.pk e p]).foldl (restoreKey o) T).pkIdx = s.pkIdx := by
+  rw [List.foldl_append]
+  obtain ⟨a1, a2, a3⟩ := popped_restore h T e1 e2
+  simp only [List.foldl_cons, List.foldl_nil, restoreKey]
+  refine ⟨a1, a2, ?_⟩
+  show set2 (ks.foldl (restoreKey o) T).pkIdx e p (some o) = s.pkIdx
+  rw [a3, e3]
+  exact set2_undo _ _ _ _ _ hpk
+
+theorem SaveOk.punch {s : Store} (h : SaveOk s) (o : ObjId) (p : Nat) (hp : (s.row o).savePos = some p) (st' : Status)
+    (hst : st' ≠ .inserted ∧ st' ≠ .updated) :
+    SaveOk { (s.upd o fun r => { r with savePos := none, status := st' }) with toSave := s.toSave.set p none } := by
+  intro q
+  by_cases hq : q = o
+  · rw [hq]; simp [Store.upd]
+  · obtain ⟨h1, h2⟩ := h q
+    simp only [Store.upd, hq, if_false]
+    refine ⟨fun p' hp' => ?_, h2⟩
+    have e1 := h1 p' hp'
+    have e2 := (h o).1 p hp
+    by_cases hpp : p = p'
+    · rw [hpp] at e2; rw [e1] at e2; cases e2; exact absurd rfl hq
+    · rw [List.getElem?_set_ne hpp]; exact e1
+
+theorem SaveOk.append {s : Store} (h : SaveOk s) (o : ObjId) (hp : (s.row o).savePos = none) (st' : Status)
+    (hst : st' ≠ .inserted ∧ st' ≠ .updated) (m : Bool) :
+    SaveOk { (s.upd o fun r => { r with savePos := some s.toSave.length, status := st' }) with toSave := s.toSave ++ [some o], modified := m } := by
+  intro q
+  by_cases hq : q = o
+  · rw [hq]; simp only [Store.upd, if_true]
+    refine ⟨fun p' hp' => ?_, fun hs => ?_⟩
+    · cases hp'; simp
+    · rcases hs with hs | hs
+      · exact absurd hs hst.1
+      · exact absurd hs hst.2
+  · obtain ⟨h1, h2⟩ := h q
+    simp only [Store.upd, hq, if_false]
+    refine ⟨fun p' hp' => ?_, h2⟩
+    have e1 := h1 p' hp'
+    rw [List.getElem?_append_left]
+    · exact e1
+    · by_cases hlt : p' < s.toSave.length
+      · exact hlt
+      · rw [List.getElem?_eq_none (Nat.le_of_not_lt hlt)] at e1; cases e1
+
+/-! ### index moves of Attribute.__set__ / Entity.set and their undo -/
+
+/-- the key-index entries of object `o` are exactly its current key values -/
+structure KeyOk (sch : Schema) (s : Store) (o : ObjId) : Prop where
+  idxVal : ∀ a v, s.idx a v = some o → (s.row o).val a = some v
+  valIdx : ∀ a u, (s.row o).val a = some u → (match sch.decl a with | some d => d.unique | none => false) = true → s.idx a u = some o
+  cidxVal : ∀ k vs, s.cidx k vs = some o → tuple ((sch.keyAttrs k).map (s.row o).val) = some vs
+  valCidx : ∀ k us, tuple ((sch.keyAttrs k).map (s.row o).val) = some us → k < sch.ckeys.length → s.cidx k us = some o
+
+/-- effect of undoing the moves `m` of one simple index `a` -/
+theorem moveSimple_spec (o : ObjId) (a : AttrId) (old new : Option Nat) (sc : Store)
+    (h1 : ∀ v, new = some v → sc.idx a v = some o → old = new)
+    (h2 : ∀ u, old = some u → sc.idx a u = some o) :
+    (moveSimple o a old new sc = none ∨
+     ∃ sc' m, moveSimple o a old new sc = some (sc', m, false) ∧
+       sc'.n = sc.n ∧ sc'.row = sc.row ∧ sc'.toSave = sc.toSave ∧ sc'.pkIdx = sc.pkIdx ∧ sc'.cidx = sc.cidx ∧ sc'.modColl = sc.modColl ∧
+       (∀ a', a' ≠ a → sc'.idx a' = sc.idx a') ∧
+       (∀ X : Store, X.idx a = sc'.idx a →
+          (m.foldl (undoMove o) X).idx a = sc.idx a ∧ (∀ a', a' ≠ a → (m.foldl (undoMove o) X).idx a' = X.idx a') ∧
+          (m.foldl (undoMove o) X).cidx = X.cidx)) := by
+  by_cases heq : old = new
+  · right; refine ⟨sc, [], by simp [moveSimple, heq], rfl, rfl, rfl, rfl, rfl, rfl, fun _ _ => rfl, fun X hX => ⟨hX, fun _ _ => rfl, rfl⟩⟩
+  · cases new with
+    | none =>
+      cases old with
+      | none => exact absurd rfl heq
+      | some u =>
+        right
+        have hu := h2 u rfl
+        refine ⟨{ sc with idx := set2 sc.idx a u none }, [.simple a (some u) none], by simp [moveSimple, hu], ?_⟩
+        refine ⟨rfl, rfl, rfl, rfl, rfl, rfl, ?_, ?_⟩
+        · intro a' ha'; funext x; simp [set2, ha']
+        · intro X hX
+          simp only [List.foldl_cons, List.foldl_nil, undoMove]
+          refine ⟨?_, ?_, by first | rfl | trivial⟩
+          · funext x
+            have := congrFun hX x
+            simp only [set2] at this ⊢
+            by_cases hx : x = u
+            · simp [hx, hu]
+            · simp [hx] at this ⊢; exact this
+          · intro a' ha'; funext x; simp [set2, ha']
+    | some v =>
+      cases hv : sc.idx a v with
+      | some o2 =>
+        by_cases ho2 : o2 = o
+        · exact absurd (h1 v rfl (ho2 ▸ hv)) heq
+        · left; simp [moveSimple, heq, hv, ho2]
+      | none =>
+        right
+        cases old with
+        | none =>
+          refine ⟨{ sc with idx := set2 sc.idx a v (some o), seen := .simple a v :: sc.seen }, [.simple a none (some v)], by simp [moveSimple, hv], ?_⟩
+          refine ⟨rfl, rfl, rfl, rfl, rfl, rfl, ?_, ?_⟩
+          · intro a' ha'; funext x; simp [set2, ha']
+          · intro X hX
+            simp only [List.foldl_cons, List.foldl_nil, undoMove]
+            refine ⟨?_, ?_, by first | rfl | trivial⟩
+            · funext x
+              have := congrFun hX x
+              simp only [set2] at this ⊢
+              by_cases hx : x = v
+              · simp [hx, hv]
+              · simp [hx] at this ⊢; exact this
+            · intro a' ha'; funext x; simp [set2, ha']
+        | some u =>
+          have hu := h2 u rfl
+          have huv : u ≠ v := fun h => heq (by rw [h])
+          have hu' : set2 sc.idx a v (some o) a u = some o := by simp [set2, huv, hu]
+          refine ⟨{ sc with idx := set2 (set2 sc.idx a v (some o)) a u none, seen := .simple a v :: sc.seen }, [.simple a (some u) (some v)],
+            by simp [moveSimple, heq, hv, hu'], ?_⟩
+          refine ⟨rfl, rfl, rfl, rfl, rfl, rfl, ?_, ?_⟩
+          · intro a' ha'; funext x; simp [set2, ha']
+          · intro X hX
+            simp only [List.foldl_cons, List.foldl_nil, undoMove]
+            refine ⟨?_, ?_, by first | rfl | trivial⟩
+            · funext x
+              have := congrFun hX x
+              simp only [set2] at this ⊢
+              by_cases hx : x = u
+              · simp [hx, hu]
+              · by_cases hx2 : x = v
+                · simp [hx2, hv, huv.symm]
+                · simp [hx, hx2] at this ⊢; exact this
+            · intro a' ha'; funext x; simp [set2, ha']
+
+/-- effect of undoing the moves `m` of one composite index `a` -/
+theorem moveComp_spec (o : ObjId) (a : KeyId) (old new : Option (List Nat)) (sc : Store)
+    (h1 : ∀ v, new = some v → sc.cidx a v = some o → old = new)
+    (h2 : ∀ u, old = some u → sc.cidx a u = some o) :
+    (moveComp o a old new sc = none ∨
+     ∃ sc' m, moveComp o a old new sc = some (sc', m, false) ∧
+       sc'.n = sc.n ∧ sc'.row = sc.row ∧ sc'.toSave = sc.toSave ∧ sc'.pkIdx = sc.pkIdx ∧ sc'.idx = sc.idx ∧ sc'.modColl = sc.modColl ∧
+       (∀ a', a' ≠ a → sc'.cidx a' = sc.cidx a') ∧
+       (∀ X : Store, X.cidx a = sc'.cidx a →
+          (m.foldl (undoMove o) X).cidx a = sc.cidx a ∧ (∀ a', a' ≠ a → (m.foldl (undoMove o) X).cidx a' = X.cidx a') ∧
+          (m.foldl (undoMove o) X).idx = X.idx)) := by
+  by_cases heq : old = new
+  · right; refine ⟨sc, [], by simp [moveComp, heq], rfl, rfl, rfl, rfl, rfl, rfl, fun _ _ => rfl, fun X hX => ⟨hX, fun _ _ => rfl, rfl⟩⟩
+  · cases new with
+    | none =>
+      cases old with
+      | none => exact absurd rfl heq
+      | some u =>
+        right
+        have hu := h2 u rfl
+        refine ⟨{ sc with cidx := setK sc.cidx a u none }, [.comp a (some u) none], by simp [moveComp, hu], ?_⟩
+        refine ⟨rfl, rfl, rfl, rfl, rfl, rfl, ?_, ?_⟩
+        · intro a' ha'; funext x; simp [setK, ha']
+        · intro X hX
+          simp only [List.foldl_cons, List.foldl_nil, undoMove]
+          refine ⟨?_, ?_, by first | rfl | trivial⟩
+          · funext x
+            have := congrFun hX x
+            simp only [setK] at this ⊢
+            by_cases hx : x = u
+            · simp [hx, hu]
+            · simp [hx] at this ⊢; exact this
+          · intro a' ha'; funext x; simp [setK, ha']
+    | some v =>
+      cases hv : sc.cidx a v with
+      | some o2 =>
+        by_cases ho2 : o2 = o
+        · exact absurd (h1 v rfl (ho2 ▸ hv)) heq
+        · left; simp [moveComp, heq, hv, ho2]
+      | none =>
+        right
+        cases old with
+        | none =>
+          refine ⟨{ sc with cidx := setK sc.cidx a v (some o), seen := .comp a v :: sc.seen }, [.comp a none (some v)], by simp [moveComp, hv], ?_⟩
+          refine ⟨rfl, rfl, rfl, rfl, rfl, rfl, ?_, ?_⟩
+          · intro a' ha'; funext x; simp [setK, ha']
+          · intro X hX
+            simp only [List.foldl_cons, List.foldl_nil, undoMove]
+            refine ⟨?_, ?_, by first | rfl | trivial⟩
+            · funext x
+              have := congrFun hX x
+              simp only [setK] at this ⊢
+              by_cases hx : x = v
+              · simp [hx, hv]
+              · simp [hx] at this ⊢; exact this
+            · intro a' ha'; funext x; simp [setK, ha']
+        | some u =>
+          have hu := h2 u rfl
+          have huv : u ≠ v := fun h => heq (by rw [h])
+          have hu' : setK sc.cidx a v (some o) a u = some o := by simp [setK, huv, hu]
+          refine ⟨{ sc with cidx := setK (setK sc.cidx a v (some o)) a u none, seen := .comp a v :: sc.seen }, [.comp a (some u) (some v)],
+            by simp [moveComp, heq, hv, hu'], ?_⟩
+          refine ⟨rfl, rfl, rfl, rfl, rfl, rfl, ?_, ?_⟩
+          · intro a' ha'; funext x; simp [setK, ha']
+          · intro X hX
+            simp only [List.foldl_cons, List.foldl_nil, undoMove]
+            refine ⟨?_, ?_, by first | rfl | trivial⟩
+            · funext x
+              have := congrFun hX x
+              simp only [setK] at this ⊢
+              by_cases hx : x = u
+              · simp [hx, hu]
+              · by_cases hx2 : x = v
+                · simp [hx2, hv, huv.symm]
+                · simp [hx, hx2] at this ⊢; exact this
+            · intro a' ha'; funext x; simp [setK, ha']
+
+/-- the invariant of the index-move loops: `A` / `K` are the simple / composite indexes processed so far -/
+structure MovesInv (o : ObjId) (s sc : Store) (acc : List IdxMove) (A : List AttrId) (K : List KeyId) : Prop where
+  n : sc.n = s.n
+  row : sc.row = s.row
+  toSave : sc.toSave = s.toSave
+  pkIdx : sc.pkIdx = s.pkIdx
+  modColl : sc.modColl = s.modColl
+  idxRest : ∀ a, a ∉ A → sc.idx a = s.idx a
+  cidxRest : ∀ k, k ∉ K → sc.cidx k = s.cidx k
+  undo : ∀ T : Store, (∀ a, a ∈ A → T.idx a = sc.idx a) → (∀ k, k ∈ K → T.cidx k = sc.cidx k) →
+    (∀ a, a ∈ A → (acc.foldl (undoMove o) T).idx a = s.idx a) ∧ (∀ a, a ∉ A → (acc.foldl (undoMove o) T).idx a = T.idx a) ∧
+    (∀ k, k ∈ K → (acc.foldl (undoMove o) T).cidx k = s.cidx k) ∧ (∀ k, k ∉ K → (acc.foldl (undoMove o) T).cidx k = T.cidx k)
+
+/-- what a finished (or conflicting) run of index moves guarantees -/
+def MovesOk (o : ObjId) (s s2 : Store) (m : List IdxMove) : Prop :=
+  s2.n = s.n ∧ s2.row = s.row ∧ s2.toSave = s.toSave ∧ s2.pkIdx = s.pkIdx ∧ s2.modColl = s.modColl ∧
+  ∀ T : Store, T.idx = s2.idx → T.cidx = s2.cidx → (m.foldl (undoMove o) T).idx = s.idx ∧ (m.foldl (undoMove o) T).cidx = s.cidx
+
+theorem MovesInv.ok {o : ObjId} {s sc : Store} {acc : List IdxMove} {A : List AttrId} {K : List KeyId} (h : MovesInv o s sc acc A K) :
+    MovesOk o s sc acc := by
+  refine ⟨h.n, h.row, h.toSave, h.pkIdx, h.modColl, fun T e1 e2 => ?_⟩
+  obtain ⟨u1, u2, u3, u4⟩ := h.undo T (fun a _ => by rw [e1]) (fun k _ => by rw [e2])
+  constructor
+  · funext a
+    by_cases ha : a ∈ A
+    · exact u1 a ha
+    · rw [u2 a ha, e1, h.idxRest a ha]
+  · funext k
+    by_cases hk : k ∈ K
+    · exact u3 k hk
+    · rw [u4 k hk, e2, h.cidxRest k hk]
+
+def movesGood (o : ObjId) (s : Store) : Moves → Prop
+  | .done s2 m => MovesOk o s s2 m
+  | .conflict s2 m => MovesOk o s s2 m
+  | .missing _ _ => False
+
+theorem movesC_spec (sch : Schema) (o : ObjId) (s : Store) (newVal : AttrId → Option Nat) (hk : KeyOk sch s o) (A : List AttrId) :
+    ∀ (ks : List KeyId) (sc : Store) (acc : List IdxMove) (K : List KeyId), ks.Nodup → (∀ k, k ∈ ks → k ∉ K) → (∀ k, k ∈ ks → k < sch.ckeys.length) →
+      MovesInv o s sc acc A K → movesGood o s (movesC sch o (s.row o).val newVal ks sc acc) := by
+  intro ks
+  induction ks with
+  | nil => intro sc acc K _ _ _ h; exact h.ok
+  | cons k ks ih =>
+    intro sc acc K hnd hdisj hlen h
+    simp only [movesC]
+    have hkK : k ∉ K := hdisj k (List.mem_cons_self)
+    have hsck : sc.cidx k = s.cidx k := h.cidxRest k hkK
+    rcases moveComp_spec o k (tuple ((sch.keyAttrs k).map (s.row o).val)) (tuple ((sch.keyAttrs k).map newVal)) sc
+        (fun vs hvs hhit => by rw [hsck] at hhit; rw [hk.cidxVal k vs hhit]; exact hvs.symm)
+        (fun us hus => by rw [hsck]; exact hk.valCidx k us hus (hlen k List.mem_cons_self)) with hnone | ⟨sc', m, hsome, f1, f2, f3, f4, f5, f6, f7, f8⟩
+    · rw [hnone]; exact h.ok
+    · rw [hsome]
+      simp only
+      apply ih sc' (acc ++ m) (k :: K) (List.nodup_cons.mp hnd).2
+      · intro k' hk' hmem
+        rcases List.mem_cons.mp hmem with rfl | hmem
+        · exact (List.nodup_cons.mp hnd).1 hk'
+        · exact hdisj k' (List.mem_cons_of_mem _ hk') hmem
+      · intro k' hk'; exact hlen k' (List.mem_cons_of_mem _ hk')
+      · refine ⟨f1.trans h.n, f2.trans h.row, f3.trans h.toSave, f4.trans h.pkIdx, f6.trans h.modColl, ?_, ?_, ?_⟩
+        · intro a ha; rw [f5]; exact h.idxRest a ha
+        · intro k' hk'
+          have hne : k' ≠ k := fun e => hk' (e ▸ List.mem_cons_self)
+          rw [f7 k' hne]; exact h.cidxRest k' (fun hm => hk' (List.mem_cons_of_mem _ hm))
+        · intro T eA eK
+          rw [List.foldl_append]
+          obtain ⟨u1, u2, u3, u4⟩ := h.undo T (fun a ha => by rw [eA a ha, f5])
+            (fun k' hk' => by
+              have hne : k' ≠ k := fun e => hkK (e ▸ hk')
+              rw [eK k' (List.mem_cons_of_mem _ hk'), f7 k' hne])
+          obtain ⟨g1, g2, g3⟩ := f8 (acc.foldl (undoMove o) T) (by rw [u4 k hkK, eK k List.mem_cons_self])
+          refine ⟨?_, ?_, ?_, ?_⟩
+          · intro a ha; rw [g3]; exact u1 a ha
+          · intro a ha; rw [g3]; exact u2 a ha
+          · intro k' hk'
+            rcases List.mem_cons.mp hk' with rfl | hk'
+            · rw [g1, hsck]
+            · have hne : k' ≠ k := fun e => hkK (e ▸ hk')
+              rw [g2 k' hne]; exact u3 k' hk'
+          · intro k' hk'
+            have hne : k' ≠ k := fun e => hk' (e ▸ List.mem_cons_self)
+            rw [g2 k' hne]; exact u4 k' (fun hm => hk' (List.mem_cons_of_mem _ hm))
+
+theorem movesS_spec (sch : Schema) (o : ObjId) (s : Store) (comps : List KeyId) (newVal : AttrId → Option Nat) (hk : KeyOk sch s o)
+    (hcn : comps.Nodup) (hcl : ∀ k, k ∈ comps → k < sch.ckeys.length) :
+    ∀ (as : List AttrId) (sc : Store) (acc : List IdxMove) (A : List AttrId), as.Nodup → (∀ a, a ∈ as → a ∉ A) →
+      (∀ a, a ∈ as → (match sch.decl a with | some d => d.unique | none => false) = true) →
+      MovesInv o s sc acc A [] → movesGood o s (movesS sch o comps (s.row o).val newVal as sc acc) := by
+  intro as
+  induction as with
+  | nil =>
+    intro sc acc A _ _ _ h
+    simp only [movesS]
+    exact movesC_spec sch o s newVal hk A comps sc acc [] hcn (fun _ _ h => by cases h) hcl h
+  | cons a as ih =>
+    intro sc acc A hnd hdisj huniq h
+    simp only [movesS]
+    have haA : a ∉ A := hdisj a List.mem_cons_self
+    have hsca : sc.idx a = s.idx a := h.idxRest a haA
+    rcases moveSimple_spec o a ((s.row o).val a) (newVal a) sc
+        (fun v hv hhit => by rw [hsca] at hhit; rw [hk.idxVal a v hhit]; exact hv.symm)
+        (fun u hu => by rw [hsca]; exact hk.valIdx a u hu (huniq a List.mem_cons_self)) with hnone | ⟨sc', m, hsome, f1, f2, f3, f4, f5, f6, f7, f8⟩
+    · rw [hnone]; exact h.ok
+    · rw [hsome]
+      simp only
+      apply ih sc' (acc ++ m) (a :: A) (List.nodup_cons.mp hnd).2
+      · intro a' ha' hmem
+        rcases List.mem_cons.mp hmem with rfl | hmem
+        · exact (List.nodup_cons.mp hnd).1 ha'
+        · exact hdisj a' (List.mem_cons_of_mem _ ha') hmem
+      · intro a' ha'; exact huniq a' (List.mem_cons_of_mem _ ha')
+      · refine ⟨f1.trans h.n, f2.trans h.row, f3.trans h.toSave, f4.trans h.pkIdx, f6.trans h.modColl, ?_, ?_, ?_⟩
+        · intro a' ha'
+          have hne : a' ≠ a := fun e => ha' (e ▸ List.mem_cons_self)
+          rw [f7 a' hne]; exact h.idxRest a' (fun hm => ha' (List.mem_cons_of_mem _ hm))
+        · intro k hk'; rw [f5]; exact h.cidxRest k hk'
+        · intro T eA eK
+          rw [List.foldl_append]
+          obtain ⟨u1, u2, u3, u4⟩ := h.undo T
+            (fun a' ha' => by
+              have hne : a' ≠ a := fun e => haA (e ▸ ha')
+              rw [eA a' (List.mem_cons_of_mem _ ha'), f7 a' hne])
+            (fun k hk' => by cases hk')
+          obtain ⟨g1, g2, g3⟩ := f8 (acc.foldl (undoMove o) T) (by rw [u2 a haA, eA a List.mem_cons_self])
+          refine ⟨?_, ?_, ?_, ?_⟩
+          · intro a' ha'
+            rcases List.mem_cons.mp ha' with rfl | ha'
+            · rw [g1, hsca]
+            · have hne : a' ≠ a := fun e => haA (e ▸ ha')
+              rw [g2 a' hne]; exact u1 a' ha'
+          · intro a' ha'
+            have hne : a' ≠ a := fun e => ha' (e ▸ List.mem_cons_self)
+            rw [g2 a' hne]; exact u2 a' (fun hm => ha' (List.mem_cons_of_mem _ hm))
+          · intro k hk'; cases hk'
+          · intro k hk'; rw [g3]; exact u4 k hk'
+
+theorem runMoves_spec (sch : Schema) (o : ObjId) (simple : List AttrId) (comps : List KeyId) (newVal : AttrId → Option Nat) (s : Store)
+    (hk : KeyOk sch s o) (hsn : simple.Nodup) (hcn : comps.Nodup) (hcl : ∀ k, k ∈ comps → k < sch.ckeys.length)
+    (huniq : ∀ a, a ∈ simple → (match sch.decl a with | some d => d.unique | none => false) = true) :
+    movesGood o s (runMoves sch o simple comps newVal s) := by
+  unfold runMoves
+  apply movesS_spec sch o s comps newVal hk hcn hcl simple s [] [] hsn (fun _ _ h => by cases h) huniq
+  exact ⟨rfl, rfl, rfl, rfl, rfl, fun _ _ => rfl, fun _ _ => rfl,
+    fun T _ _ => ⟨fun _ h => (by cases h), fun _ _ => rfl, fun _ h => (by cases h), fun _ _ => rfl⟩⟩
+
 /-! ### the primitive steps -/
 
 section prims
@@ -354,27 +960,30 @@ theorem step_touchKey (c : AttrId) (st : St) : Step s0 st (touchKey c st) := by
 
 /-- a logged step that rewrites one row with `f`, sets `modColl c obj`, and whose undo rewrites the row with `g` and
     restores `modColl c obj` -/
-theorem step_rowMod (st : St) (c : AttrId) (obj : ObjId) (f g : Row → Row) (e : Undo)
+theorem step_rowMod (st : St) (s1 : Store) (c : AttrId) (obj : ObjId) (f g : Row → Row) (e : Undo)
+    (e_n : s1.n = st.store.n) (e_q : s1.toSave = st.store.toSave) (e_pk : s1.pkIdx = st.store.pkIdx) (e_idx : s1.idx = st.store.idx)
+    (e_cidx : s1.cidx = st.store.cidx) (e_mc : s1.modColl = set2 st.store.modColl c obj true) (e_row : s1.row = (st.store.upd obj f).row)
     (hundo : ∀ t, undo1 t e = (if st.store.modColl c obj then t.upd obj g else { (t.upd obj g) with modColl := set2 (t.upd obj g).modColl c obj false }))
     (hinv : g (f (st.store.row obj)) = st.store.row obj)
     (hf : ∀ r, (f r).status = r.status ∧ (f r).savePos = r.savePos)
     (hg : ∀ r, (g r).status = r.status) :
-    Step s0 st ((st.setStore { (st.store.upd obj f) with modColl := set2 (st.store.upd obj f).modColl c obj true }).log e) := by
+    Step s0 st ((st.setStore s1).log e) := by
   apply Step.push
   · intro gd
-    refine SaveOk.of_eq (s := st.store) gd.save rfl ?_
+    refine SaveOk.of_eq (s := st.store) gd.save e_q ?_
     intro o
-    show ((st.store.upd obj f).row o).savePos = _ ∧ ((st.store.upd obj f).row o).status = _
+    rw [e_row]
     by_cases ho : o = obj
     · subst ho; simp only [upd_row_same]; exact ⟨(hf _).2, (hf _).1⟩
     · rw [upd_row_other _ _ _ _ ho]; exact ⟨rfl, rfl⟩
-  · exact Nat.le_refl _
+  · exact Nat.le_of_eq e_n.symm
   · intro gd t ht
     rw [hundo t]
-    have hmc : t.modColl = set2 st.store.modColl c obj true := ht.modColl.symm
+    have hmc : t.modColl = set2 st.store.modColl c obj true := ht.modColl.symm.trans e_mc
     have hrows : ∀ p, p < s0.n → (t.upd obj g).row p = st.store.row p := by
       intro p hp
       have := ht.row p hp
+      rw [e_row] at this
       by_cases hpo : p = obj
       · subst hpo
         simp only [upd_row_same] at this ⊢
@@ -383,20 +992,22 @@ theorem step_rowMod (st : St) (c : AttrId) (obj : ObjId) (f g : Row → Row) (e 
         exact this.symm
     have hstat : ∀ p, p < st.store.n → (st.store.row p).status = ((t.upd obj g).row p).status := by
       intro p hp
-      have := ht.status p hp
+      have := ht.status p (e_n ▸ hp)
+      rw [e_row] at this
       by_cases hpo : p = obj
       · subst hpo
         simp only [upd_row_same] at this ⊢
         rw [hg, ← this, (hf _).1]
       · simp only [upd_row_other _ _ _ _ hpo] at this ⊢
         exact this
+    have hn : st.store.n = t.n := e_n.symm.trans ht.n
     cases hm : st.store.modColl c obj
     · simp only [Bool.false_eq_true, if_false]
-      refine ⟨ht.n, ht.toSave, ht.pkIdx, ht.idx, ht.cidx, ?_, hstat, fun p hp => (hrows p hp).symm⟩
+      refine ⟨hn, e_q.symm.trans ht.toSave, e_pk.symm.trans ht.pkIdx, e_idx.symm.trans ht.idx, e_cidx.symm.trans ht.cidx, ?_, hstat, fun p hp => (hrows p hp).symm⟩
       show st.store.modColl = set2 t.modColl c obj false
       rw [hmc]; exact (set2_undo _ _ _ _ _ hm).symm
     · simp only [if_true]
-      refine ⟨ht.n, ht.toSave, ht.pkIdx, ht.idx, ht.cidx, ?_, hstat, fun p hp => (hrows p hp).symm⟩
+      refine ⟨hn, e_q.symm.trans ht.toSave, e_pk.symm.trans ht.pkIdx, e_idx.symm.trans ht.idx, e_cidx.symm.trans ht.cidx, ?_, hstat, fun p hp => (hrows p hp).symm⟩
       show st.store.modColl = t.modColl
       rw [hmc, ← hm, set2_self]
 
@@ -407,9 +1018,9 @@ theorem step_reverseAdd1 (c : AttrId) (item obj : ObjId) (st : St) : Step s0 st 
   · exact Step.refl _ _
   · rename_i hchk
     simp only [Bool.or_eq_true, not_or, Bool.not_eq_true] at hchk
-    exact step_rowMod st c obj (fun r => r.revAdd c item ((st.store.row obj).removed c item))
+    exact step_rowMod st _ c obj (fun r => r.revAdd c item ((st.store.row obj).removed c item))
       (fun r => r.unRevAdd c item ((st.store.row obj).removed c item))
-      (Undo.revAdd c obj item ((st.store.row obj).removed c item) (st.store.modColl c obj)) (fun t => rfl)
+      (Undo.revAdd c obj item ((st.store.row obj).removed c item) (st.store.modColl c obj)) rfl rfl rfl rfl rfl rfl rfl (fun t => rfl)
       (unRevAdd_revAdd _ c item hchk.1 hchk.2) (fun r => ⟨rfl, rfl⟩) (fun r => rfl)
 
 theorem step_reverseRemove1 (c : AttrId) (item obj : ObjId) (st : St) : Step s0 st (reverseRemove1 c item obj st).st := by
@@ -419,9 +1030,9 @@ theorem step_reverseRemove1 (c : AttrId) (item obj : ObjId) (st : St) : Step s0 
   · exact Step.refl _ _
   · rename_i hchk
     simp only [Bool.or_eq_true, not_or, Bool.not_eq_true, Bool.not_eq_eq_eq_not, Bool.not_true, Bool.not_false] at hchk
-    exact step_rowMod st c obj (fun r => r.revRemove c item ((st.store.row obj).added c item))
+    exact step_rowMod st _ c obj (fun r => r.revRemove c item ((st.store.row obj).added c item))
       (fun r => r.unRevRemove c item ((st.store.row obj).added c item))
-      (Undo.revRemove c obj item ((st.store.row obj).added c item) (st.store.modColl c obj)) (fun t => rfl)
+      (Undo.revRemove c obj item ((st.store.row obj).added c item) (st.store.modColl c obj)) rfl rfl rfl rfl rfl rfl rfl (fun t => rfl)
       (unRevRemove_revRemove _ c item (by simpa using hchk.1) hchk.2) (fun r => ⟨rfl, rfl⟩) (fun r => rfl)
 
 theorem step_reverseAdd (c : AttrId) (objs : List ObjId) (item : ObjId) (st : St) : Step s0 st (reverseAdd c objs item st).st :=
@@ -430,6 +1041,344 @@ theorem step_reverseAdd (c : AttrId) (objs : List ObjId) (item : ObjId) (st : St
 theorem step_reverseRemove (c : AttrId) (objs : List ObjId) (item : ObjId) (st : St) : Step s0 st (reverseRemove c objs item st).st :=
   (step_touchKey c st).trans (step_iter (fun obj st => step_reverseRemove1 c item obj st) objs _)
 
+theorem step_refWrite (bit : Bool) (o : ObjId) (a : AttrId) (v : Option Nat) (st : St) : Step s0 st (refWrite bit o a v st) := by
+  unfold refWrite
+  dsimp only
+  obtain ⟨hspec, hv, hidx0, hcidx0⟩ := mark_spec o (if bit then [a] else []) false st.store
+  have hnil : ∀ {s2 : Store}, s2.idx = st.store.idx → s2.cidx = st.store.cidx → Good s0 st → ∀ T : Store, T.idx = s2.idx → T.cidx = s2.cidx →
+      (([] : List IdxMove).foldl (undoMove o) T).idx = st.store.idx ∧ (([] : List IdxMove).foldl (undoMove o) T).cidx = st.store.cidx :=
+    fun h1 h2 _ T e1 e2 => ⟨e1.trans h1, e2.trans h2⟩
+  split
+  · exact step_markEntry _ (some (a, (st.store.row o).val a)) hspec (by simp only [fixVal]; rw [hv, set1_self]) (fun t => rfl)
+      (hnil hidx0 hcidx0)
+  · exact step_markEntry _ (some (a, (st.store.row o).val a)) (hspec.setVal (fun r => set1 r.val a v))
+      (by simp only [fixVal, upd_row_same]; rw [hv, set1_set1, set1_self]) (fun t => rfl) (hnil hidx0 hcidx0)
+
+theorem step_attrClearRev (sch : Schema) (o : ObjId) (a : AttrId) (st : St) : Step s0 st (attrClearRev sch o a st).st := by
+  unfold attrClearRev
+  split
+  · exact Step.refl _ _
+  · split
+    · dsimp only
+      split
+      · exact Step.refl _ _
+      · split
+        · exact step_refWrite _ _ _ _ _
+        · split
+          · exact (step_refWrite _ _ _ _ _).trans (step_reverseRemove _ _ _ _)
+          · exact step_refWrite _ _ _ _ _
+    · exact Step.refl _ _
+
+theorem step_attrSetRev (sch : Schema) (o : ObjId) (a : AttrId) (x : ObjId) (st : St) : Step s0 st (attrSetRev sch o a x st).st := by
+  unfold attrSetRev
+  split
+  · exact Step.refl _ _
+  · split
+    · dsimp only
+      have h1 := step_refWrite (s0 := s0) ‹AttrDecl›.bit o a (some x) st
+      split
+      · exact step_refWrite _ _ _ _ _
+      · split
+        · exact step_refWrite _ _ _ _ _
+        · split
+          · exact (step_refWrite _ _ _ _ _).trans (step_reverseRemove _ _ _ _)
+          · split
+            · exact step_refWrite _ _ _ _ _
+            · split
+              · exact step_refWrite _ _ _ _ _
+              · exact (step_refWrite _ _ _ _ _).trans (step_attrClearRev _ _ _ _)
+    · exact Step.refl _ _
+
+theorem rewriteSet_shape (s : Store) (o : ObjId) (c : AttrId) (new toAdd toRemove : ObjId → Bool) :
+    ∃ (A R : ObjId → Bool) (N : Int), rewriteSet s o c new toAdd toRemove =
+      { (s.upd o fun r => r.putColl c new A R N) with modColl := set2 s.modColl c o true, modKey := set1 s.modKey c true, modified := true } := by
+  unfold rewriteSet
+  exact ⟨_, _, _, rfl⟩
+
+/-- the SetData rewrite of `Set.__set__` called with an undo list -/
+theorem step_rewrite (o : ObjId) (c : AttrId) (new toAdd toRemove : ObjId → Bool) (st : St) :
+    Step s0 st ((st.log (.rewrite o c ((st.store.row o).items c) ((st.store.row o).added c) ((st.store.row o).removed c)
+      ((st.store.row o).count c) (st.store.modColl c o))).setStore (rewriteSet st.store o c new toAdd toRemove)) := by
+  obtain ⟨A, R, N, h⟩ := rewriteSet_shape st.store o c new toAdd toRemove
+  rw [h]
+  exact step_rowMod st _ c o (fun r => r.putColl c new A R N)
+    (fun r => r.putColl c ((st.store.row o).items c) ((st.store.row o).added c) ((st.store.row o).removed c) ((st.store.row o).count c))
+    (.rewrite o c ((st.store.row o).items c) ((st.store.row o).added c) ((st.store.row o).removed c) ((st.store.row o).count c) (st.store.modColl c o))
+    rfl rfl rfl rfl rfl rfl rfl (fun t => rfl) (putColl_putColl _ _ _ _ _ _) (fun r => ⟨rfl, rfl⟩) (fun r => rfl)
+
+theorem step_delEntry {st : St} {S : Store} {o : ObjId} {KS : List IdxKey} (ho : o < st.store.n)
+    (hsave : Good s0 st → SaveOk S) (hn : S.n = st.store.n) (hmc : S.modColl = st.store.modColl)
+    (hother : ∀ p, p ≠ o → S.row p = st.store.row p)
+    (hrow : S.row o = { (st.store.row o) with status := (S.row o).status, savePos := (S.row o).savePos })
+    (hidx : ∀ T : Store, T.idx = S.idx → T.cidx = S.cidx → T.pkIdx = S.pkIdx →
+      (KS.foldl (restoreKey o) T).idx = st.store.idx ∧ (KS.foldl (restoreKey o) T).cidx = st.store.cidx ∧ (KS.foldl (restoreKey o) T).pkIdx = st.store.pkIdx)
+    (hq : Good s0 st → (((S.row o).status = .marked ∧ ∃ l, S.toSave = l ++ [some o] ∧
+            (match (st.store.row o).savePos with | some p => l.set p (some o) | none => l) = st.store.toSave)
+        ∨ ((S.row o).status = .cancelled ∧ ∃ p, (st.store.row o).savePos = some p ∧ (S.toSave).set p (some o) = st.store.toSave)
+        ∨ ((S.row o).status = (st.store.row o).status ∧ (st.store.row o).status ≠ .marked ∧ (st.store.row o).status ≠ .cancelled ∧
+            S.toSave = st.store.toSave ∧ (S.row o).savePos = (st.store.row o).savePos))) :
+    Step s0 st ((st.setStore S).log (.del o (st.store.row o).status (st.store.row o).savePos KS)) := by
+  apply Step.push hsave (Nat.le_of_eq hn.symm)
+  intro g t ht
+  exact delUndo_eqv ho hn hmc hother hrow hidx (hq g) t ht
+
+theorem list_set_set_self {α : Type} (l : List α) (p : Nat) (x y : α) (h : l[p]? = some x) : (l.set p y).set p x = l := by
+  rw [List.set_set]
+  apply List.ext_getElem?
+  intro i
+  by_cases hi : p = i
+  · subst hi
+    have hlt : p < l.length := by
+      by_cases hlt : p < l.length
+      · exact hlt
+      · rw [List.getElem?_eq_none (Nat.le_of_not_lt hlt)] at h; cases h
+    rw [List.getElem?_set_self hlt, h]
+  · rw [List.getElem?_set_ne hi]
+
+/-- the end of `_delete_` -/
+theorem step_finishDelete (sch : Schema) (o : ObjId) (st : St) (ho : o < st.store.n) : Step s0 st (finishDelete sch o st).st := by
+  unfold finishDelete
+  dsimp only
+  split
+  · exact Step.refl _ _
+  · rename_i hnd
+    have hpop := popKeys_spec sch o st.store
+    generalize popKeys sch o st.store = pk at hpop
+    obtain ⟨s1, keys, missing⟩ := pk
+    simp only at hpop ⊢
+    have hnm : (st.store.row o).status ≠ .marked := by intro h; rw [h] at hnd; exact hnd rfl
+    have hnc : (st.store.row o).status ≠ .cancelled := by intro h; rw [h] at hnd; exact hnd rfl
+    -- the error exits that changed the key indexes only
+    have hA : Step s0 st ((st.setStore s1).log (.del o (st.store.row o).status (st.store.row o).savePos keys)) := by
+      apply step_delEntry ho
+      · intro g; exact g.save.of_eq hpop.toSave (fun p => by rw [hpop.row]; exact ⟨rfl, rfl⟩)
+      · exact hpop.n
+      · exact hpop.modColl
+      · intro p _; rw [hpop.row]
+      · rw [hpop.row]
+      · intro T e1 e2 e3
+        obtain ⟨a1, a2, a3⟩ := popped_restore hpop T e1 e2
+        exact ⟨a1, a2, a3.trans (e3.trans hpop.pkIdx)⟩
+      · intro _; right; right
+        rw [hpop.row]; exact ⟨rfl, hnm, hnc, hpop.toSave, rfl⟩
+    split
+    · exact hA
+    · split
+      · -- created
+        split
+        · exact hA
+        · rename_i hcr p hp
+          -- the store after `cancelled`
+          have hB : ∀ (KS : List IdxKey) (P : EntId → Nat → Option ObjId),
+              (∀ T : Store, T.idx = s1.idx → T.cidx = s1.cidx → T.pkIdx = P →
+                (KS.foldl (restoreKey o) T).idx = st.store.idx ∧ (KS.foldl (restoreKey o) T).cidx = st.store.cidx ∧ (KS.foldl (restoreKey o) T).pkIdx = st.store.pkIdx) →
+              Step s0 st ((st.setStore { ({ (s1.upd o fun r => { r with savePos := none, status := .cancelled }) with toSave := s1.toSave.set p none } : Store) with pkIdx := P }).log
+                (.del o (st.store.row o).status (st.store.row o).savePos KS)) := by
+            intro KS P hidx
+            apply step_delEntry ho
+            · intro g
+              have h1 : SaveOk s1 := g.save.of_eq hpop.toSave (fun q => by rw [hpop.row]; exact ⟨rfl, rfl⟩)
+              have := h1.punch o p (by rw [hpop.row]; exact hp) .cancelled ⟨by simp, by simp⟩
+              exact this.of_eq rfl (fun q => ⟨rfl, rfl⟩)
+            · exact hpop.n
+            · exact hpop.modColl
+            · intro q hq; simp [Store.upd, hq, hpop.row]
+            · simp [Store.upd, hpop.row]
+            · exact hidx
+            · intro g; right; left
+              refine ⟨by simp [Store.upd], p, hp, ?_⟩
+              show (s1.toSave.set p none).set p (some o) = _
+              rw [hpop.toSave]
+              exact list_set_set_self _ _ _ _ ((g.save o).1 p hp)
+          split
+          · exact hB keys s1.pkIdx (fun T e1 e2 e3 => by
+              obtain ⟨a1, a2, a3⟩ := popped_restore hpop T e1 e2
+              exact ⟨a1, a2, a3.trans (e3.trans hpop.pkIdx)⟩)
+          · rename_i pkv hpkv
+            split
+            · rename_i hhit
+              have hhit' : st.store.pkIdx (st.store.row o).ent pkv = some o := by
+                have : s1.pkIdx (st.store.row o).ent pkv = some o := hhit
+                rw [hpop.pkIdx] at this; exact this
+              refine hB (keys ++ [.pk (st.store.row o).ent pkv]) _ (fun T e1 e2 e3 => ?_)
+              exact popped_restore_pk hpop _ _ hhit' T e1 e2 (by rw [e3]; show set2 s1.pkIdx _ _ none = _; rw [hpop.pkIdx])
+            · exact hB keys s1.pkIdx (fun T e1 e2 e3 => by
+                obtain ⟨a1, a2, a3⟩ := popped_restore hpop T e1 e2
+                exact ⟨a1, a2, a3.trans (e3.trans hpop.pkIdx)⟩)
+      · -- marked_to_delete
+        rename_i hncr
+        split
+        · exact hA
+        · rename_i s2 hs2
+          -- s2 is s1 with a hole punched at the old position (status modified) or s1 itself
+          have hD : ∀ (l : List (Option ObjId)), s2 = { s1 with toSave := l } →
+              (Good s0 st → (match (st.store.row o).savePos with | some p => l.set p (some o) | none => l) = st.store.toSave) →
+              (Good s0 st → SaveOk ({ (s2.upd o fun r => { r with savePos := some s2.toSave.length, status := .marked }) with
+                                      toSave := s2.toSave ++ [some o], modified := true } : Store)) →
+              Step s0 st ((st.setStore ({ (s2.upd o fun r => { r with savePos := some s2.toSave.length, status := .marked }) with
+                                      toSave := s2.toSave ++ [some o], modified := true } : Store)).log
+                (.del o (st.store.row o).status (st.store.row o).savePos keys)) := by
+            intro l hl hq hs
+            subst hl
+            apply step_delEntry ho hs
+            · exact hpop.n
+            · exact hpop.modColl
+            · intro q hq'; simp [Store.upd, hq', hpop.row]
+            · simp [Store.upd, hpop.row]
+            · intro T e1 e2 e3
+              obtain ⟨a1, a2, a3⟩ := popped_restore hpop T e1 e2
+              exact ⟨a1, a2, a3.trans (e3.trans hpop.pkIdx)⟩
+            · intro g; left
+              exact ⟨by simp [Store.upd], l, rfl, hq g⟩
+          split at hs2
+          · rename_i hmod
+            split at hs2
+            · cases hs2
+            · rename_i p hp
+              cases hs2
+              apply hD _ rfl
+              · intro g; rw [hp]; simp only; rw [hpop.toSave]; exact list_set_set_self _ _ _ _ ((g.save o).1 p hp)
+              · intro g
+                have h1 : SaveOk s1 := g.save.of_eq hpop.toSave (fun q => by rw [hpop.row]; exact ⟨rfl, rfl⟩)
+                have h2 := h1.punch o p (by rw [hpop.row]; exact hp) .modified ⟨by simp, by simp⟩
+                have h3 := h2.append o (by simp [Store.upd]) .marked ⟨by simp, by simp⟩ true
+                refine h3.of_eq rfl (fun q => ?_)
+                by_cases hq : q = o
+                · rw [hq]; simp [Store.upd]
+                · simp [Store.upd, hq]
+          · split at hs2
+            · cases hs2
+            · rename_i hsp
+              cases hs2
+              have hnone : (st.store.row o).savePos = none := by
+                cases h : (st.store.row o).savePos
+                · rfl
+                · rw [h] at hsp; simp at hsp
+              apply hD s1.toSave rfl
+              · intro g; rw [hnone]; exact hpop.toSave
+              · intro g
+                have h1 : SaveOk s1 := g.save.of_eq hpop.toSave (fun q => by rw [hpop.row]; exact ⟨rfl, rfl⟩)
+                exact h1.append o (by rw [hpop.row]; exact hnone) .marked ⟨by simp, by simp⟩ true
+
 end prims
+
+/-! ### the procedures -/
+
+section procs
+variable {sch : Schema} {s0 : Store}
+
+/-- `Set.__set__`: restorable whenever it was called with an undo list, or failed -/
+theorem step_setColl {del : ObjId → St → Res} (hdel : ∀ x st, Step s0 st (del x st).st) (isRev : Bool) (o : ObjId) (c : AttrId)
+    (items : List ObjId) (st : St) (res : Res) (hres : setColl sch del isRev o c items st = res)
+    (hcond : isRev = true ∨ ∃ e st', res = .err e st') : Step s0 st res.st := by
+  unfold setColl at hres
+  split at hres
+  · rw [← hres]; exact Step.refl _ _
+  · split at hres
+    · rename_i d rd _ _
+      dsimp only at hres
+      split at hres
+      · rw [← hres]; exact Step.refl _ _
+      · generalize hr : (if (rd.kind != Kind.coll) = true then _ else _ : Res) = r at hres
+        have hstep : Step s0 st r.st := by
+          rw [← hr]
+          split
+          · apply step_bind
+            · split
+              · exact step_iter hdel _ _
+              · exact step_iter (fun item st => step_attrClearRev sch item _ st) _ _
+            · intro st1 _; exact step_iter (fun item st => step_attrSetRev sch item _ o st) _ _
+          · apply step_bind (step_reverseRemove _ _ _ _)
+            intro st1 _; exact step_reverseAdd _ _ _ _
+        cases r with
+        | err e st1 => rw [← hres]; exact hstep
+        | ok st1 =>
+          simp only [Res.bind] at hres
+          rw [← hres]
+          rcases hcond with rfl | ⟨e, st', habs⟩
+          · exact hstep.trans (step_rewrite _ _ _ _ _ _)
+          · rw [← hres] at habs; cases habs
+    · rw [← hres]; exact Step.refl _ _
+
+/-- the two relationship loops of `_delete_` -/
+theorem step_deleteLoops (fuel : Nat) (ih : ∀ (o : ObjId) (st : St), Step s0 st (delete sch fuel o st).st) (o : ObjId) (st : St) :
+    Step s0 st ((iter (fun (c : AttrId) (st : St) =>
+        match sch.decl c, sch.decl ((sch.decl c).map (·.rev) |>.getD c) with
+        | some d, some rd =>
+          if d.kind != .coll then .ok st
+          else
+            let members := st.store.elems ((st.store.row o).items c)
+            if members.isEmpty then .ok st
+            else if d.cascade then iter (fun x => delete sch fuel x) members st
+            else if !rd.required then setColl sch (fun x => delete sch fuel x) true o c [] st
+            else .err .constraintError st
+        | _, _ => .ok st) (sch.attrsOf (st.store.row o).ent) st).bind (iter (fun (a : AttrId) (st : St) =>
+        match sch.decl a, sch.decl ((sch.decl a).map (·.rev) |>.getD a) with
+        | some d, some rd =>
+          if d.kind != .ref then .ok st else
+          match (st.store.row o).val a with
+          | none => .ok st
+          | some x =>
+            if rd.kind != .coll then
+              if d.cascade then delete sch fuel x st
+              else if !rd.required then
+                if (st.store.row x).val d.rev = some o then attrClearRev sch x d.rev st
+                else .ok st
+              else .err .constraintError st
+            else reverseRemove d.rev [x] o st
+        | _, _ => .ok st) (sch.attrsOf (st.store.row o).ent))).st := by
+  apply step_bind
+  · apply step_iter
+    intro c s
+    split
+    · split
+      · exact Step.refl _ _
+      · dsimp only
+        split
+        · exact Step.refl _ _
+        · split
+          · exact step_iter (fun x st => ih x st) _ _
+          · split
+            · exact step_setColl (fun x st => ih x st) true o c [] s _ rfl (Or.inl rfl)
+            · exact Step.refl _ _
+    · exact Step.refl _ _
+  · intro st1 _
+    apply step_iter
+    intro a s
+    split
+    · split
+      · exact Step.refl _ _
+      · split
+        · exact Step.refl _ _
+        · split
+          · split
+            · exact ih _ _
+            · split
+              · split
+                · exact step_attrClearRev _ _ _ _
+                · exact Step.refl _ _
+              · exact Step.refl _ _
+          · exact step_reverseRemove _ _ _ _
+    · exact Step.refl _ _
+
+/-- `Entity._delete_` -/
+theorem step_delete : ∀ (fuel : Nat) (o : ObjId) (st : St), Step s0 st (delete sch fuel o st).st := by
+  intro fuel
+  induction fuel with
+  | zero => intro o st; simp only [delete]; exact Step.refl _ _
+  | succ fuel ih =>
+    intro o st
+    simp only [delete]
+    split
+    · exact Step.refl _ _
+    · rename_i hlt
+      split
+      · exact Step.refl _ _
+      · have hstepL := step_deleteLoops (sch := sch) (s0 := s0) fuel ih o st
+        generalize hL : Res.bind _ _ = rL at hstepL ⊢
+        exact step_bind hstepL (fun stB hB => step_finishDelete sch o stB
+          (Nat.lt_of_lt_of_le (by simpa using hlt) (by rw [hB] at hstepL; exact hstepL.mono)))
+
+end procs
 
 end PonyVerif.Model.Undo
